@@ -27,6 +27,7 @@ async fn verif_grpc() {
         "streaming_bad_modify_after_ack" => streaming_bad_modify_after_ack().await,
         "delete_releases_streaming_pull" => delete_releases(true).await,
         "delete_releases_blocked_pull" => delete_releases(false).await,
+        s if s.starts_with("api_parse_name:") => api_parse_name(s).await,
         other => panic!("unknown scenario {}", other),
     }
 }
@@ -169,4 +170,33 @@ async fn delete_releases(streaming: bool) {
     }
     obs(json!({"scenario": if streaming { "delete_releases_streaming_pull" } else { "delete_releases_blocked_pull" },
                "rounds": rounds, "hangs": hangs, "released": released, "statuses": statuses}));
+}
+
+
+// C18 at the API surface: is this string accepted as a topic / subscription name by the handlers, and what does it denote?
+// scenario = api_parse_name:<kind>:<hex of the utf-8 bytes>
+async fn api_parse_name(scenario: &str) {
+    let mut parts = scenario.splitn(3, ':');
+    let _ = parts.next();
+    let kind = parts.next().unwrap().to_string();
+    let hex = parts.next().unwrap_or("");
+    let bytes: Vec<u8> = (0..hex.len() / 2).map(|i| u8::from_str_radix(&hex[2 * i..2 * i + 2], 16).unwrap()).collect();
+    let raw = match String::from_utf8(bytes) {
+        Ok(s) => s,
+        Err(_) => { obs(json!({"scenario": "api_parse_name", "invalid_utf8": true})); return; }
+    };
+    let mut server = TestHost::start().await.unwrap();
+    if kind == "topic" {
+        match server.publisher.create_topic(Topic { name: raw.clone(), ..Default::default() }).await {
+            Ok(resp) => obs(json!({"scenario": "api_parse_name", "kind": kind, "input": raw, "accepted": true, "echo": resp.into_inner().name})),
+            Err(st) => obs(json!({"scenario": "api_parse_name", "kind": kind, "input": raw, "accepted": st.code() != tonic::Code::InvalidArgument,
+                                   "code": format!("{:?}", st.code())})),
+        }
+    } else {
+        match server.subscriber.get_subscription(GetSubscriptionRequest { subscription: raw.clone() }).await {
+            Ok(resp) => obs(json!({"scenario": "api_parse_name", "kind": kind, "input": raw, "accepted": true, "echo": resp.into_inner().name})),
+            Err(st) => obs(json!({"scenario": "api_parse_name", "kind": kind, "input": raw, "accepted": st.code() != tonic::Code::InvalidArgument,
+                                   "code": format!("{:?}", st.code())})),
+        }
+    }
 }
